@@ -44,6 +44,8 @@ type dialResult struct {
 type sysB struct {
 	forged  bool // scenario with the forger events
 	ticks   bool
+	fine    bool // state key also contains the last two events (thorough tier)
+	hist    []string
 	ctx     context.Context
 	cancel  context.CancelFunc
 	sw      *qnet.Switch
@@ -58,8 +60,8 @@ type sysB struct {
 	bad     bool
 }
 
-func newSysB(forged, ticks bool) *sysB {
-	s := &sysB{forged: forged, ticks: ticks, sw: qnet.NewSwitch(), keys: enum.Keys(4), names: map[peer.ID]string{}, seen: map[*qnet.Node]int{}}
+func newSysB(forged, ticks, fine bool) *sysB {
+	s := &sysB{forged: forged, ticks: ticks, fine: fine, sw: qnet.NewSwitch(), keys: enum.Keys(4), names: map[peer.ID]string{}, seen: map[*qnet.Node]int{}}
 	s.ctx, s.cancel = context.WithCancel(context.Background())
 	for i, n := range []string{"L", "X", "Y", "F"} {
 		s.names[s.keys[i].ID] = n
@@ -225,6 +227,7 @@ func (s *sysB) Apply(ev string) {
 	if s.broken != "" {
 		return
 	}
+	s.hist = append(s.hist, ev)
 	switch {
 	case ev == "drop":
 		for _, n := range s.nodes() {
@@ -450,7 +453,15 @@ func (s *sysB) Canon() string {
 	case s.fconn:
 		bn = "F"
 	}
-	return fmt.Sprintf("aX->%s L[%s] X[%s] Y[%s]", bn, s.liveOf(s.L), s.liveOf(s.X), s.liveOf(s.Y))
+	c := fmt.Sprintf("aX->%s L[%s] X[%s] Y[%s]", bn, s.liveOf(s.L), s.liveOf(s.X), s.liveOf(s.Y))
+	if s.fine {
+		h := s.hist
+		if len(h) > 2 {
+			h = h[len(h)-2:]
+		}
+		c += " last=" + strings.Join(h, ";")
+	}
+	return c
 }
 
 func (s *sysB) Check() []string {
